@@ -80,6 +80,12 @@ CHECKS = {
         design="§7 C03",
         note="Composition of the per-statement lemmas into one theorem about a Gallina `create` is not done; the honest prover of the implementation is tied to the model only through the verifier (its output is accepted by the real verifier, whose model is validated separately). bulletproofs, AES-GCM, hash-to-curve idealised. Known finding: JSON cannot decode presentations containing bulletproofs.",
         technique="Coq theorems (per-statement completeness, slot alignment) + differential correspondence of honest provers (external and Presentation::create) against verifier model and implementation"),
+    "C04": dict(
+        text="Theorem: the verifier-side transcript (nonce, schema id, statement count, and for every statement of all eight kinds every absorbed field, including the issuer public data and the credential-schema labels) has a decoder that is a left inverse of the encoder for every nonce and every well-formed schema (any number and order of statements), hence equal transcripts imply equal nonce and equal schema, field by field; LEB128 round trip for 128-bit values. With the hash idealised, a presentation's challenge binds exactly this context. "
+             "Correspondence: for honestly created presentations over generated schemas, ~38 kinds of single-field mutations (each field of the theorem's schema type) must make Presentation::verify fail, and the transcript digest computed by the library's own add_challenge_contribution must change exactly when the Coq payload sequence changes.",
+        design="§7 C04",
+        note="merlin idealised (injective framing, collision-resistant challenge). Not bound, and outside the property's list: claim types / validators of the issuer's credential schema; None vs empty label/description.",
+        technique="Coq theorem (decoder is a left inverse of the transcript encoder => injectivity) + differential correspondence of transcript digests and verification verdicts under single-field mutations"),
 }
 
 PLANNED = {
